@@ -210,6 +210,22 @@ def run(ck, replay=None):
         sel = thists if not quick else [h for h in thists if len(h) <= 4]
         tspecs.append((sel, "analysis-" + ("rgb" if rgb_ else "scalar"), make, use, lambda x, y: x.shape == y.shape and np.allclose(x, y, rtol=1e-9, atol=1e-12), "twin:" + ("rgb" if rgb_ else "scalar")))
     ck.cov["twin_object_histories"] = twoobj.run(ck, "C13", tspecs)
+    # one analysis called again after calls it rejected (spec/FailedCalls.tla): the baseline / cleaning filter / stages it
+    # applies afterwards are those of an analysis that never saw the rejected input
+    from lib import failedcalls
+    fhists = failedcalls.histories(ck)
+    fspecs = []
+    for (_, kind, make, use, same, tid) in list(tspecs):
+        shp = (3, 4, 3) if kind.endswith("rgb") else (3, 4)
+        bads = [lambda: None, lambda: "not an image", lambda: np.zeros(shp),
+                lambda shp=shp: darsia.Image(np.zeros((5, 7) + shp[2:]), space_dim=2, dimensions=[1.0, 1.0], scalar=len(shp) == 2)]
+        for bi, bad in enumerate(bads):
+            def fmisuse(ca, bad=bad):
+                with warnings.catch_warnings():
+                    warnings.simplefilter("ignore")
+                    return ca(bad())
+            fspecs.append((fhists, f"{kind}-bad{bi}", lambda make=make: make("a"), lambda ca, use=use: use("a", ca), fmisuse, same, f"failed:{kind}:{bi}"))
+    ck.cov["failed_call_histories"] = failedcalls.run(ck, "C13", fspecs)
     if replay:
         cases = [tuple(c["case"]) for c in json.load(open(replay))["cases"]]
     else:
